@@ -50,7 +50,7 @@ chk("C13",
 chk("C01",
     "Every bounded input (and every member of the parametric families) is parsed through both entry points and the statement is checked literally: "
     "ordering, gap blankness, Source == input range with NUL replaced, 1-based StartLine against an independent line counter, aliasing of the caller's buffer and non-modification of it and of its spare capacity.",
-    COMMON_NOTE + " Streaming is driven with one full read here; other read schedules are C08.",
+    COMMON_NOTE + " Streaming is driven with one full read, one-byte reads and every single-cut schedule here; arbitrary schedules and reader faults are C08.",
     "stateless explicit enumeration of all bounded inputs x 2 entry points against the real parser; tiling/offset/line oracle written from the statement",
     "DESIGN.md section 6, C01")
 chk("C08",
